@@ -180,7 +180,9 @@ var StdAtoms = []Atom{
 	}},
 	{"BR", func(t *Tok) string { return "<p>" + t.W(11) + "<br>" + t.W(12) + "</p>" }},
 	{"HID", func(t *Tok) string { return "<div style=\"display:none\"><p>" + t.W(20) + "</p></div>" }},
-	{"HIDs", func(t *Tok) string { return "<p>" + t.W(10) + " <span hidden>" + t.W(2) + "</span> " + t.W(10) + "</p>" }},
+	{"HIDs", func(t *Tok) string {
+		return "<p>" + t.W(10) + " <span hidden>" + t.W(2) + "</span> " + t.W(10) + "</p>"
+	}},
 	{"NOS", func(t *Tok) string {
 		u := t.U()
 		return "<figure><noscript><img src=\"http://example.com/img/" + u + ".jpg\"></noscript><img data-src=\"http://example.com/img/" + u + "-lazy.jpg\" class=\"lazy\"><figcaption>" + t.W(4) + "</figcaption></figure>"
